@@ -343,6 +343,7 @@ func check(run *enga.Run) *sim.Violation {
 					return &sim.Violation{Class: "len_negative", Site: "listz.(*SyncList).Len", Detail: fmt.Sprintf("Len() = %d", r.V)}
 				}
 			case "Fresh":
+				run.Out.Probes["fresh_instance_created_during_run"]++
 				if r.Done && !r.OK {
 					return &sim.Violation{Class: "fresh_instance_disturbed", Site: "listz.NewSync", Detail: fmt.Sprintf("a list created while other lists are in use: pushed %#x, Len() = %d, Pop() = %#x, then Len() = %d (expected the value back and lengths 1 and 0)", r.Vs[0], r.Vs[1], r.V, r.Vs[2])}
 				}
